@@ -69,6 +69,29 @@ def add_op_code(
   return len(model_op_codes) - 1
 
 
+def get_unique_tensor_name(
+    tensor_name: bytes,
+    subgraph: schema_py_generated.SubGraphT,
+) -> bytes:
+  """Make a tensor name unique in the subgraph by appending a counter if needed.
+
+  Args:
+    tensor_name: The desired name of the new tensor.
+    subgraph: The subgraph where the new tensor is going to be added.
+
+  Returns:
+    tensor_name if no tensor in the subgraph has this name yet, otherwise
+    tensor_name followed by the first `_<n>` that makes it unique.
+  """
+  existing_names = set(tensor.name for tensor in subgraph.tensors)
+  unique_name = tensor_name
+  index = 0
+  while unique_name in existing_names:
+    index += 1
+    unique_name = tensor_name + b'_%d' % index
+  return unique_name
+
+
 def add_new_constant_tensor(
     tensor_name: str,
     data: np.ndarray,
